@@ -391,6 +391,8 @@ public:
   /// return the opposite gap. Similar to Indicator.
   template <class VarVec>
   Violation ComputeViolation(const VarVec& x) {
+    if (x.recomp_vals())        // idealistic mode: as other functional constraints
+      return mp::ComputeViolation(static_cast<const Base&>(*this), x);
     auto viol = GetConstraint().ComputeViolation(x);
     bool ccon_valid = viol.viol_<=0.0;
     bool has_arg = x[GetResultVar()] >= 0.5;
